@@ -240,6 +240,9 @@ def select_programs(names, tier, seed):
         if parts[0].startswith("from_") or (parts[3] in ("in0", "inlast") and parts[4] in ("in0", "inlast")
                                             and parts[5] == "cb0" and parts[6] in ("t0", "t2")):
             chosen.add(i)
+        # the y field of these is a step count, not a vertex: every count from an in-range source
+        if parts[0].endswith("advance_finish") and parts[3] in ("in0", "inlast"):
+            chosen.add(i)
     stride = 7
     off = seed % stride
     chosen.update(i for i in range(off, len(names), stride) if names[i].split("/")[0] not in GENERATED)
